@@ -101,6 +101,8 @@ struct Shared {
     /// Some: appends run under this thread-local `metrics` recorder (global-recorder bridge)
     tl_recorder: Option<CountingRecorder>,
     live_bound: u64,
+    /// the plan's schedule seed: decides per flush request whether the future migrates between wakers
+    run_key: u64,
     hist: History,
     ctl: Arc<StreamCtl>,
     stop: AtomicBool,
@@ -158,22 +160,34 @@ fn do_flush(sh: &Shared, h: &Handle, op: &Value) {
     let start_nexts = sh.ctl.nexts_done.load(Ordering::SeqCst);
     sh.hist.log(K::FlushReq { fid });
     let mut fut = h.flush();
-    let fw = Arc::new(FlushWaker {
-        key: detsim::fresh_key(),
-        woken: AtomicBool::new(false),
-        wakes: AtomicU64::new(0),
-        nexts_at_wake: AtomicU64::new(0),
-        ctl: sh.ctl.clone(),
-    });
-    let waker = Waker::from(fw.clone());
-    let mut cx = Context::from_waker(&waker);
+    let new_waker = || {
+        Arc::new(FlushWaker {
+            key: detsim::fresh_key(),
+            woken: AtomicBool::new(false),
+            wakes: AtomicU64::new(0),
+            nexts_at_wake: AtomicU64::new(0),
+            ctl: sh.ctl.clone(),
+        })
+    };
+    // a quarter of the requests: the future is handed from task to task while it is pending - every poll comes with
+    // a waker of its own, and only the waker of the *latest* poll is ever waited on
+    let migrate = mix(sh.run_key, fid) % 4 == 0;
+    let mut fw = new_waker();
     let bound = sh.live_bound;
     let slice_ns = ju(op, "slice_ns", 10_000).max(1);
     let deadline = op.get("ns").and_then(|x| x.as_u64()).map(|ns| detsim::clock_ns() + ns);
     let mut first = true;
+    let mut polls = 0u64;
     loop {
         detsim::yield_point();
+        if migrate && !first {
+            fw = new_waker();
+            sh.hist.log(K::Note("flush_future_polled_with_another_waker".into()));
+        }
+        let waker = Waker::from(fw.clone());
+        let mut cx = Context::from_waker(&waker);
         fw.woken.store(false, Ordering::SeqCst);
+        polls += 1;
         if let Poll::Ready(()) = Pin::new(&mut fut).poll(&mut cx) {
             let waited = if fw.wakes.load(Ordering::SeqCst) > 0 {
                 fw.nexts_at_wake.load(Ordering::SeqCst).saturating_sub(start_nexts)
@@ -221,7 +235,10 @@ fn do_flush(sh: &Shared, h: &Handle, op: &Value) {
                 let _ = detsim::block_on_key(fw.key, Some(d), detsim::site());
             }
             _ => {
-                let _ = detsim::block_on_key(fw.key, None, detsim::site());
+                // a migrating future is first waited on for a short while only (the task it is part of does
+                // something else, a `select!` arm fires): it is then polled again, pending, with the next waker
+                let slice = if migrate && polls <= 2 { Some(detsim::clock_ns() + slice_ns * polls) } else { None };
+                let _ = detsim::block_on_key(fw.key, slice, detsim::site());
             }
         }
     }
@@ -231,6 +248,23 @@ fn run_ops(sh: &Arc<Shared>, h: &Handle, thread: u64, ops: &[Value]) {
     let mut seq = 0u64;
     for op in ops {
         match js(op, "op", "") {
+            "append" if jb(op, "unwinding", false) => {
+                // every append is made by a destructor that runs while the thread unwinds from a panic
+                // (`std::thread::panicking()` is true inside the sink): an entry appended that way counts like any other
+                for _ in 0..ju(op, "n", 1) {
+                    struct OnDrop<F: FnMut()>(F);
+                    impl<F: FnMut()> Drop for OnDrop<F> {
+                        fn drop(&mut self) {
+                            (self.0)()
+                        }
+                    }
+                    let _ = std::panic::catch_unwind(std::panic::AssertUnwindSafe(|| {
+                        let _g = OnDrop(|| do_append(sh, h, thread, &mut seq));
+                        std::panic::resume_unwind(Box::new("harness: unwinding through a scope whose destructor appends"));
+                    }));
+                }
+                sh.hist.log(K::Note("append_while_unwinding".into()));
+            }
             "append" => {
                 for _ in 0..ju(op, "n", 1) {
                     do_append(sh, h, thread, &mut seq);
@@ -265,6 +299,20 @@ fn run_ops(sh: &Arc<Shared>, h: &Handle, thread: u64, ops: &[Value]) {
                 while sh.ctl.nexts_started.load(Ordering::SeqCst) < n && polls < 10_000 {
                     detsim::sleep_ns(1_000_000);
                     polls += 1;
+                }
+            }
+            "wait_writer_idle" => {
+                // until the writer thread is parked and the stream has not been called for a whole flush interval
+                // (every producer has finished by now, so a parked writer means an empty queue); bounded
+                let step = ju(op, "ns", 1_000_000).max(1_000);
+                let mut last = u64::MAX;
+                for _ in 0..20_000 {
+                    let done = sh.ctl.nexts_done.load(Ordering::SeqCst);
+                    if writer_parked(sh) && done == last {
+                        break;
+                    }
+                    last = done;
+                    detsim::sleep_ns(step);
                 }
             }
             "gate_open_after" => {
@@ -457,6 +505,7 @@ fn queue_main(plan: &Value, slot: Arc<Mutex<Option<QueueRun>>>) {
         held: Mutex::new(vec![]),
         tl_recorder: if global_tl { Some(recorder.clone()) } else { None },
         live_bound: liveness_bound(plan).unwrap_or(u64::MAX),
+        run_key: ju(plan.get("sched").unwrap_or(&Value::Null), "seed", 0),
         hist: hist.clone(),
         ctl: ctl.clone(),
         stop: AtomicBool::new(false),
@@ -1248,6 +1297,68 @@ fn outage_stratum(mut plan: Value) -> Value {
     plan
 }
 
+/// Appends made by destructors while their thread unwinds from a panic: in a tenth of the plans every third append
+/// operation of the producers is made that way.
+fn unwinding_append_stratum(mut plan: Value) -> Value {
+    let h = mix(ju(plan.get("sched").unwrap_or(&Value::Null), "seed", 0), 0xa99e);
+    if h % 10 == 0 {
+        let mut k = h / 10;
+        if let Some(ps) = plan.get_mut("producers").and_then(|p| p.as_array_mut()) {
+            for p in ps {
+                if let Some(ops) = p.as_array_mut() {
+                    for op in ops {
+                        if js(op, "op", "") == "append" {
+                            if k % 3 == 0 {
+                                op["unwinding"] = json!(true);
+                            }
+                            k = k / 3 + 7 * (k % 3) + 1;
+                        }
+                    }
+                }
+            }
+        }
+    }
+    plan
+}
+
+/// A queue that sits idle for a long time - 1 100 / 2 500 / 5 000 flush intervals without an entry - before the
+/// ending of the run (join handle dropped, or forgotten and the last queue handle dropped): one plan in 25.
+fn long_idle_stratum(mut plan: Value) -> Value {
+    let h = mix(ju(plan.get("sched").unwrap_or(&Value::Null), "seed", 0), 0x1d7e);
+    if h % 25 == 0 && plan.get("lossy_shutdown").and_then(|x| x.as_bool()) != Some(true) {
+        let n = [1_100u64, 1_100, 2_500, 5_000][(h / 25 % 4) as usize];
+        let idle = json!({"op":"sleep","ns": n.saturating_mul(ju(&plan, "flush_interval_ns", 1_000_000))});
+        let forget = js(&plan, "end", "") == "forget";
+        let key = if forget { "post" } else { "main_ops" };
+        if let Some(ops) = plan.get_mut(key).and_then(|o| o.as_array_mut()) {
+            if forget {
+                ops.insert(0, idle);
+            } else {
+                ops.push(idle);
+            }
+            plan["sched"]["max_steps"] = json!(600_000);
+            plan["long_idle_intervals"] = json!(n);
+        }
+    }
+    plan
+}
+
+/// The shutdown timeout has no say while the queue is alive: a fifth of the flush-barrier plans run with one of
+/// 1 ms / 50 ms / 2 s (far below the stalls of the stream) and, so that it has no say at the end either, wait for the
+/// writer to be idle before the join handle is dropped.
+fn small_timeout_stratum(mut plan: Value) -> Value {
+    let h = mix(ju(plan.get("sched").unwrap_or(&Value::Null), "seed", 0), 0x5a11);
+    if h % 5 == 0 && ju(&plan, "shutdown_timeout_ns", 0) == 1_000_000_000_000_000 && plan.get("shutdown_timeout_huge").is_none() && plan.get("pre_end").map(|p| p.is_array()).unwrap_or(false) {
+        plan["shutdown_timeout_ns"] = json!([1_000_000u64, 50_000_000, 2_000_000_000][(h / 5 % 3) as usize]);
+        let step = ju(&plan, "flush_interval_ns", 1_000_000);
+        if let Some(pre) = plan["pre_end"].as_array_mut() {
+            pre.push(json!({"op":"wait_writer_idle","ns": step}));
+        }
+        plan["end_before_join"] = json!(false);
+    }
+    plan
+}
+
 /// A tenth of the plans whose shutdown timeout means "never give up" (10^6 s) say so with `Duration::MAX` or
 /// another huge value instead. Decided from the schedule seed, so that no other draw of the plan moves.
 fn huge_timeout_stratum(mut plan: Value) -> Value {
@@ -1280,7 +1391,7 @@ impl Scenario for QueueFifo {
         4
     }
     fn generate(&self, rng: &mut Rng, tier: Tier) -> Value {
-        outage_stratum(huge_timeout_stratum(gen_c01(rng, tier)))
+        long_idle_stratum(outage_stratum(unwinding_append_stratum(huge_timeout_stratum(gen_c01(rng, tier)))))
     }
     fn run(&self, plan: &Value) -> Report {
         let (out, run) = run_queue_plan(plan);
@@ -1516,7 +1627,7 @@ impl Scenario for QueueOverflow {
         "C09"
     }
     fn generate(&self, rng: &mut Rng, tier: Tier) -> Value {
-        outage_stratum(huge_timeout_stratum(gen_c09(rng, tier)))
+        outage_stratum(unwinding_append_stratum(huge_timeout_stratum(gen_c09(rng, tier))))
     }
     fn run(&self, plan: &Value) -> Report {
         let (out, run) = run_queue_plan(plan);
@@ -1906,7 +2017,7 @@ impl Scenario for QueueFlushBarrier {
         3
     }
     fn generate(&self, rng: &mut Rng, tier: Tier) -> Value {
-        huge_timeout_stratum(gen_c04_safety(rng, tier))
+        small_timeout_stratum(huge_timeout_stratum(gen_c04_safety(rng, tier)))
     }
     fn run(&self, plan: &Value) -> Report {
         let (out, run) = run_queue_plan(plan);
@@ -2282,7 +2393,7 @@ impl Scenario for QueueShutdown {
         4
     }
     fn generate(&self, rng: &mut Rng, tier: Tier) -> Value {
-        outage_stratum(huge_timeout_stratum(gen_c05(rng, tier)))
+        long_idle_stratum(outage_stratum(unwinding_append_stratum(huge_timeout_stratum(gen_c05(rng, tier)))))
     }
     fn run(&self, plan: &Value) -> Report {
         let (out, run) = run_queue_plan(plan);
